@@ -1,5 +1,55 @@
-(* C17 - read-only and copy-returning APIs never modify their input. *)
-From Fiddle Require Import PyBase PySlice Sig ArgStore PyCall Heap Traverse Build Build_stmt Traverse_proofs
-  Build_proofs Anchors.
+(* C17 - read-only and copy-returning APIs never modify their input.
+   Every modelled API is a memoized traversal whose node function only appends to the output heap;
+   for those the input heap is a prefix of the output heap, whatever the outcome (also on failure). *)
+From Fiddle Require Import PyBase PySlice Sig ArgStore PyCall Heap Traverse Build Build_stmt
+  Traverse_proofs Build_proofs Copy Tags Eq Transform C08Check Frame_proofs Anchors.
 
-Example C17_placeholder : True. Proof. exact I. Qed.
+Theorem C17_frame : forall e h on_node,
+  wf_b e h = true -> appends on_node ->
+  forall r s res, root_ok h r -> mrun e h on_node r = (s, res) ->
+    firstn (length h) (out s) = h /\ (length h <= length (out s))%nat.
+Proof. exact frame_generic. Qed.
+Print Assumptions C17_frame.
+
+(* the modelled APIs satisfy the discipline *)
+Theorem C17_build_disciplined : forall e fails, appends (build_node e fails).
+Proof. exact build_appends. Qed.
+Print Assumptions C17_build_disciplined.
+
+Theorem C17_copy_disciplined : forall e pickle, appends (copy_node e pickle).
+Proof. exact copy_appends. Qed.
+Print Assumptions C17_copy_disciplined.
+
+Theorem C17_rebuild_disciplined : forall e, appends (rebuild_node e).
+Proof. exact rebuild_appends. Qed.
+Print Assumptions C17_rebuild_disciplined.
+
+Theorem C17_trim_disciplined : forall e, appends (trim_node e).
+Proof. exact trim_appends. Qed.
+Print Assumptions C17_trim_disciplined.
+
+Theorem C17_simplify_disciplined : forall e, appends (simplify_node e).
+Proof. exact simplify_appends. Qed.
+Print Assumptions C17_simplify_disciplined.
+
+Theorem C17_materialize_tags_disciplined : forall e, appends (mattags_node e).
+Proof. exact mattags_appends. Qed.
+Print Assumptions C17_materialize_tags_disciplined.
+
+(* fdl.build never modifies the configuration: the instance for the build traversal *)
+Theorem C17_build_frame : forall e fails h r s res,
+  wf_b e h = true -> root_ok h r -> mrun e h (build_node e fails) r = (s, res) ->
+  firstn (length h) (out s) = h /\ (length h <= length (out s))%nat.
+Proof. intros e fails h r s res Hwf Hr Hrun. eapply frame_generic; eauto using build_appends. Qed.
+Print Assumptions C17_build_frame.
+
+(* == and the path-reporting traversals are pure functions of the heap: they return no heap at all
+   (Eq.cfg_eq : ... -> bool, Traverse.iter_basic / iter_memo / paths_to : ... -> list _). *)
+Example C17_nonvacuous :
+  let e : sigenv := [(7%N, [mkparam 1%N PosOrKw None false])] in
+  let h : heap := [NList [RA (AInt 1)]; NBuildable BConfig 7%N [(KName 1%N, RP 0)] []; NList [RP 1; RP 1]] in
+  wf_b e h = true /\
+  firstn 3 (out (fst (mrun e h (copy_node e false) (RP 2)))) = h /\
+  length (out (fst (mrun e h (copy_node e false) (RP 2)))) = 6%nat.
+Proof. vm_compute. repeat split. Qed.
+Print Assumptions C17_nonvacuous.
